@@ -409,7 +409,7 @@ double Integrate_MC_Vegas(std::function<double(std::vector<double>&, const doubl
 				for(j = 0; j < ndim; j++)
 				{
 					xn	  = (kg[j] - libphysica::Sample_Uniform(PRNG)) * dxg + 1.0;
-					ia[j] = std::max(std::min(int(xn), NDMX), 1);
+					ia[j] = std::max(std::min(int(xn), nd), 1);
 					if(ia[j] > 1)
 					{
 						xo = xi[j][ia[j] - 1] - xi[j][ia[j] - 2];
